@@ -44,7 +44,7 @@ static void RunRouting(vf::BS & bs)
    w.Pump();
    // a later SETDATA with the same path keeps the last value; re-sync the implicit parents that were later set explicitly (already handled by map semantics)
    static const char * const CL[] = {"*", "a", "b", "ab", "a*", "?", "zz", "(a|b)", "[ab]*"};
-   uint32 seq = 0; std::map<uint32, std::set<int> > expect; std::map<uint32, int> senderOf; std::set<uint32> hasSessionField; bool sameDepthKeys = false, mixedDepthKeys = false, usedFilter = false, routeReplaced = false, keylessAfterReplace = false; uint64_t h = 5;
+   uint32 seq = 0; std::map<uint32, std::set<int> > expect; std::map<uint32, int> senderOf; std::set<uint32> hasSessionField; bool sameDepthKeys = false, mixedDepthKeys = false, usedFilter = false, routeReplaced = false, keylessAfterReplace = false, malformedKey = false, malformedBeforeValid = false; uint64_t h = 5;
    const uint32 nsend = 1+bs.u8()%8;
    for (uint32 s=0; s<nsend; s++)
    {
@@ -74,11 +74,12 @@ static void RunRouting(vf::BS & bs)
          std::string pat; const uint8_t form = bs.u8()%6;
          const std::string hostC = (form == 1) ? w.c[bs.u8()%NC]->host : std::string("*"), idC = (form == 2) ? w.c[bs.u8()%NC]->id : std::string("*");
          const uint32 depth = bs.u8()%3;    // 0 = session level, 1..2 = node levels
-         std::string rel; for (uint32 dd=0; dd<depth; dd++) {if (dd) rel += "/"; rel += CL[bs.u8()%9];}
+         std::string rel; for (uint32 dd=0; dd<depth; dd++) {if (dd) rel += "/"; const uint8_t cb = bs.u8(); if (cb >= 250) {rel += (cb&1) ? "[" : "a("; malformedKey = true;} else rel += CL[cb%9];}     // a clause that does not compile: the server drops that key (it selects nothing) and carries on with the others
          const std::string abs = "/"+hostC+"/"+idC+(rel.size() ? ("/"+rel) : std::string(""));
          pat = ((form >= 3)&&(rel.size())) ? rel : abs;            // relative keys get the "/*/*/" prefix on the server
          if (std::find(absPats.begin(), absPats.end(), Absolute(pat)) != absPats.end()) continue;     // the same key twice in one Message (a later one replaces the earlier one's filter) is outside the documented domain
          (void) m()->AddString(PR_NAME_KEYS, pat.c_str());
+         {bool earlierBad = false; for (size_t q=0; q<absPats.size(); q++) if ((absPats[q].find('[') != std::string::npos && absPats[q].find(']') == std::string::npos)||(absPats[q].find("a(") != std::string::npos)) earlierBad = true; if ((earlierBad)&&(pat.find("a(") == std::string::npos)&&((pat.find('[') == std::string::npos)||(pat.find(']') != std::string::npos))) malformedBeforeValid = true;}
          absPats.push_back(Absolute(pat)); depths.push_back(SplitPath(Absolute(pat)).size()); l += " key["+pat+"]";
       }
       // optional filters, parallel to the keys (a key without a filter is unfiltered)
@@ -120,7 +121,7 @@ static void RunRouting(vf::BS & bs)
    // per (sender, receiver) FIFO
    for (int r=0; r<NC; r++) {std::map<int, uint32> last; for (size_t k=0; k<order[r].size(); k++) {const int s = senderOf[order[r][k]]; if ((last.count(s))&&(last[s] > order[r][k])) vf::Fail("session %d received Message #%u from session %d after #%u: out of order: history [%s]", r, order[r][k], s, last[s], g_hist.c_str()); last[s] = order[r][k];}}
    w.Stop();
-   vf::Count("mode_routing"); vf::Count("routed_messages", nsend); if (sameDepthKeys) vf::Count("case_two_keys_of_equal_depth"); if (mixedDepthKeys) vf::Count("case_keys_of_different_depths"); if (usedFilter) vf::Count("case_with_filters"); if (keylessAfterReplace) vf::Count("case_keyless_message_after_default_route_was_replaced");
+   vf::Count("mode_routing"); vf::Count("routed_messages", nsend); if (sameDepthKeys) vf::Count("case_two_keys_of_equal_depth"); if (mixedDepthKeys) vf::Count("case_keys_of_different_depths"); if (usedFilter) vf::Count("case_with_filters"); if (keylessAfterReplace) vf::Count("case_keyless_message_after_default_route_was_replaced"); if (malformedBeforeValid) vf::Count("case_malformed_key_before_a_valid_one");
    if ((sameDepthKeys)||(mixedDepthKeys)) {vf::NonTrivial(h); if (vf::WantSample()) vf::Sample(g_hist);}
 }
 
